@@ -23,7 +23,7 @@ Lemma grpc_stop_outlives_context_refuted :
   exists (ls : list label) (s : st),
     run_noforce ls (init [KGrpc] 0) = Some s
     /\ s_ctx s = true                                   (* the context given to Stop has ended *)
-    /\ s_caller s = CStopDrain 0                        (* Stop has not returned *)
+    /\ s_stop s = CStopDrain 0                        (* Stop has not returned *)
     /\ forallb (fun l => match step_noforce l s with None => true | Some _ => false end)
                (internal_labels 1) = true.              (* and no step of the server is enabled *)
 Proof. exists stuck_schedule. eexists. split; [vm_compute; reflexivity|]. vm_compute. repeat split. Qed.
@@ -31,7 +31,7 @@ Proof. exists stuck_schedule. eexists. split; [vm_compute; reflexivity|]. vm_com
 (* with the forced stop aborting the calls (handlers honour cancellation) the same history goes on to the end *)
 Lemma grpc_stop_with_force_completes :
   match run lib_serve_ret lib_drain_ret (stuck_schedule ++ [LForce; LStopProvReturn; LStopReturn]) (init [KGrpc] 0) with
-  | Some s => s_caller s = CStopped /\ s_stopwg s = 0%Z
+  | Some s => s_stop s = CStopped /\ s_stopwg s = 0%Z
   | None => False
   end.
 Proof. vm_compute. split; reflexivity. Qed.
